@@ -22,6 +22,41 @@ CHECKS = {
     ),
 }
 
+CHECKS.update({
+    "C06": (
+        "exploration",
+        "runtime monitor over configurations: per-draw assertions on tuning flag, frozen transformation and step-size band",
+        "Real chains of all six presets are run for num_tune+30 draws over num_tune 0..=40 (exhaustive) and seeded values up to 2000, "
+        "random step-size method / jitter / window fractions / switch, update frequencies / growth factors and three targets "
+        "(divergent histories included); every draw is checked: Progress.tuning and the tuning statistic equal draw < num_tune, "
+        "construction never panics, no transformation change or update event after the configured start of the final step-size "
+        "window (+1 draw slack), step_size_bar bit-constant from draw num_tune-1, every later step size inside bar*[1-j,1+j].",
+        "Observes only the public Chain API (Progress, statistics). The start of the final window is recomputed from the settings.",
+        "DESIGN.md §3 C06",
+    ),
+    "C16": (
+        "exploration",
+        "runtime monitor: declared schema vs Storable::get_all of every draw over all option sets",
+        "For 6 presets x 32 store_* option sets x dimensions {0,1,3,17} x 2 targets (55 draws, warmup with transformation updates "
+        "and forced divergences) every draw's statistics are compared with Settings::stat_names/types/dims/event_dims: names and "
+        "order, declared type, length = product of declared dims, non-event statistics on every draw or none (and following their "
+        "option), event statistics only on event draws with their identifying fields, divergence fields <=> Progress.diverging, "
+        "transformation-update events <=> the next trajectory runs under a different transformation id, counters +1, chain constant.",
+        "Public API only. Option -> statistic mapping (gradient, unconstrained_draw, transformed_*, mass-matrix payload) is part of the oracle.",
+        "DESIGN.md §3 C16",
+    ),
+    "C19": (
+        "exploration",
+        "runtime monitor: serde round trips on randomised settings + bit-identical chain replay + Zarr attribute read-back",
+        "Every leaf of every preset's settings is replaced by random finite values (full f64 range, subnormals, u64 extremes, all "
+        "enum variants, null/number options); from_value/to_value and to_string/from_str/to_string must be identical. Chains built "
+        "from original, value- and string-round-tripped valid settings with one seed must give bit-identical draws and statistics "
+        "(45 draws). The sampler_settings attribute written by ZarrConfig::new_trace must equal to_value(settings).",
+        "serde_json is the JSON implementation on both sides (a symmetric serde_json defect would be invisible).",
+        "DESIGN.md §3 C19",
+    ),
+})
+
 NOT_YET = {}
 
 
